@@ -665,5 +665,51 @@ m('compose-validates-first-occurrence-only','C04',GCS,
 			}
 		}
 		data = append(data, contents...)''','R65/','a source repeated right after itself is not validated against its own ifGenerationMatch')
+# ---- C07 / R66: nothing written under the lock is computed from a read made before the lock
+m('patch-metageneration-from-unlocked-read','C07',GCS,
+  '''	var obj *storage.Object
+	err := g.locks.Run(ctx, lockName(bucket, filename), func(ctx context.Context) error {
+		// Find the existing file / meta.
+		var err error
+		obj, err = g.store.GetMeta(baseUrl, bucket, filename)
+		if err != nil {
+			return fmt.Errorf("failed to check existence of %s/%s: %w", bucket, filename, err)
+		}
+
+		if obj == nil {
+			return nil
+		}
+
+		if err := validateConds(obj, conds); err != nil {
+			return err
+		}
+
+		// Update via json decode, applied to a private deep copy: the object
+		// handed out by the store may share maps and slices with the stored
+		// record (and with copies of it), which a failed or concurrent patch
+		// must never touch.
+		metagen := obj.Metageneration''','''	var obj *storage.Object
+	pre, _ := g.store.GetMeta(baseUrl, bucket, filename)
+	err := g.locks.Run(ctx, lockName(bucket, filename), func(ctx context.Context) error {
+		// Find the existing file / meta.
+		var err error
+		obj, err = g.store.GetMeta(baseUrl, bucket, filename)
+		if err != nil {
+			return fmt.Errorf("failed to check existence of %s/%s: %w", bucket, filename, err)
+		}
+
+		if obj == nil || pre == nil {
+			return nil
+		}
+
+		if err := validateConds(obj, conds); err != nil {
+			return err
+		}
+
+		// Update via json decode, applied to a private deep copy: the object
+		// handed out by the store may share maps and slices with the stored
+		// record (and with copies of it), which a failed or concurrent patch
+		// must never touch.
+		metagen := pre.Metageneration''','R66/','two concurrent patches both compute metageneration+1 from the same unlocked read: one increment is lost')
 json.dump(M, open('/verif/mutants.json','w'), indent=1)
 print(len(M),'mutants')
